@@ -133,12 +133,35 @@ def handle(c):
         stats['queries'] += 1
         kinds[k] = kinds.get(k, 0) + 1
         err = None
+        j0 = j1 = None
+        tw = op.get('tw')
+        if tw:
+            try:
+                j0 = p.compute_totals(of=tw[0], wrt=tw[1], return_format='flat_dict')
+            except Exception:   # noqa
+                j0 = None
+            if snap(p)[0].tobytes() != b[0].tobytes() or snap(p)[1].tobytes() != b[1].tobytes():
+                bad('compute_totals(of=%r, wrt=%r) changed the model state' % (tw[0], tw[1]))
         try:
             do_query(p, op, spec, rnd)
         except Exception as e:   # noqa
             err = e
             stats['query_errors'] += 1
             errs.setdefault('%s: %s: %s' % (k, type(e).__name__, str(e)[:100]), 0)
+        if j0 is not None and err is None:
+            try:
+                j1 = p.compute_totals(of=tw[0], wrt=tw[1], return_format='flat_dict')
+            except Exception as e:   # noqa
+                bad('compute_totals works before %s but raises after it: %r' % (k, e))
+            stats['totals_pairs'] = stats.get('totals_pairs', 0) + 1
+            if j1 is not None:
+                for key in j0:
+                    if np.asarray(j0[key]).tobytes() != np.asarray(j1[key]).tobytes():
+                        bad('hidden state: compute_totals %r is %r before %s(%s) and %r after it (inputs and outputs '
+                            'unchanged)' % (key, np.asarray(j0[key]).ravel().tolist()[:6], k,
+                                            {kk: vv for kk, vv in op.items() if kk not in ('op', 'tw')},
+                                            np.asarray(j1[key]).ravel().tolist()[:6]))
+                        break
         a = snap(p)
         if err is not None and (a[0].tobytes() != b[0].tobytes() or a[1].tobytes() != b[1].tobytes()):
             # the call did not complete: the property speaks about calls that return.  The state is no longer
@@ -157,7 +180,8 @@ def handle(c):
     if msgs:
         m = msgs[0]
         sig = 'C31:' + ('run-vs-twin' if 'twin' in m else 'run-twice' if 'twice' in m else
-                        'run-fails' if m.startswith('run_model failed') else 'query-' + m.split('(')[0])
+                        'run-fails' if m.startswith('run_model failed') else
+                        'hidden-state-totals' if m.startswith('hidden state') else 'query-' + m.split('(')[0])
     stats['query_kinds'] = kinds
     stats['errors'] = sorted(errs)[:5]
     return {'res': obs, 'ok': ok, 'msg': ' ;; '.join(msgs[:3]), 'sig': sig,
